@@ -56,7 +56,7 @@ PROPS = {
                lambda c: sched.key_rebind(c, (sched.FB,)), interp.fb_epoch,
                lambda c: sched.sched_span(c, (sched.FB,)), sched.step_bound_fb,
                integrator.wa_forward,
-               integrator.buf_rules, integrator.last_row],
+               integrator.buf_rules, integrator.last_row, integrator.kernel_via],
         decided=['the state at an epoch inside a sampling interval is predicted with the elapsed '
                  'fraction of the pending increment',
                  'the one-row prediction made at every epoch writes inside the history buffers '
@@ -110,7 +110,7 @@ PROPS = {
                    'second-order (lever/Earth-radius) terms of the position Jacobian']),
     'C02': dict(
         rules=[kernel.row_rec, integrator.buf_rules, integrator.carrier, integrator.carrier_sync,
-               integrator.predict_eff, integrator.last_row],
+               integrator.predict_eff, integrator.last_row, integrator.kernel_via],
         decided=['get_time / get_pva return the latest row',
                  'kernel writes stay inside the buffers for every chunking and capacity (linear '
                  'arithmetic proof on both paths of the capacity test)',
